@@ -37,7 +37,8 @@ static void run_combo(vf::Ctx& ctx, int n, const std::string& name)
 {
     auto& r = ctx.rng;
     DMat<T> A = rand_herm<T>(r, n, ASp ? 0.35 : 1.0, 0.0);
-    DMat<T> B = r.coin(0.7) ? rand_spd<T>(r, n, BSp ? 0.3 : 0.8) : rand_herm<T>(r, n, BSp ? 0.35 : 1.0, 0.0);
+    bool bspd = r.coin(0.7);
+    DMat<T> B = bspd ? rand_spd<T>(r, n, BSp ? 0.3 : 0.8) : rand_herm<T>(r, n, BSp ? 0.35 : 1.0, 0.0);
     T sigma = T(0.3 + r.uni()) * T(r.coin() ? 1 : -1);
     // inputs on which elimination without pivoting fails (tiny shifted diagonal next to O(1) couplings): B = I so that A - sigma B has that structure
     {
@@ -45,15 +46,52 @@ static void run_combo(vf::Ctx& ctx, int n, const std::string& name)
         DMat<T> A2 = A;
         const int hc = hostile_shift_class<T, T>(r, A2, s2, true);
         ctx.count("shift_class/" + std::to_string(hc));
-        if (hc != 0) { A = A2; sigma = s2; B = DMat<T>::Identity(n, n); }
+        if (hc != 0) { A = A2; sigma = s2; B = DMat<T>::Identity(n, n); bspd = true; }
+    }
+    using PA = Present<ASp, FA, SI>;
+    using PB = Present<BSp, FB, SI>;
+    using Op = Spectra::SymShiftInvert<T, typename std::conditional<ASp, Eigen::Sparse, Eigen::Dense>::type, typename std::conditional<BSp, Eigen::Sparse, Eigen::Dense>::type, UA, UB, FA, FB, SI, SI>;
+    // Ill-conditioned pencil shift with an ordinary solution: sigma at a relative distance of 10^-(0.3..0.62 digits) from a generalized eigenvalue of (A, B) (B definite, so
+    // they are real), right-hand side (A - sigma B) y0.  Backward-stable accuracy holds whatever the conditioning; a solve that is only accurate relative to cond (explicit
+    // inverse, relaxed pivoting) leaves a residual ~ u cond ||x||, which a random right-hand side - whose solution is dominated by the nearly singular direction - cannot show.
+    if (bspd && n >= 2)
+    {
+        Eigen::GeneralizedSelfAdjointEigenSolver<DMat<T>> ges(A, B, Eigen::EigenvaluesOnly);
+        if (ges.info() == Eigen::Success)
+        {
+            const LD spread = std::max<LD>(std::abs((LD) ges.eigenvalues()[0]), std::abs((LD) ges.eigenvalues()[n - 1]));
+            const LD lam = (LD) ges.eigenvalues()[(int) r.range(0, n - 1)];
+            const LD digits = -std::log10(unit<T>());
+            const T sg = T(lam + spread * std::pow(10.0L, -(LD) r.range((long) std::ceil(0.3L * digits), (long) std::floor(0.62L * digits))) * (r.coin() ? 1 : -1));
+            const MatCLD Fn = A.template cast<CLD>() - CLD((LD) sg) * B.template cast<CLD>();
+            Eigen::JacobiSVD<Eigen::MatrixXcd> sv(Fn.template cast<std::complex<double>>());
+            const LD kn = (LD) (sv.singularValues()[0] / sv.singularValues()[n - 1]);
+            if (sg != T(0) && kn < std::min<LD>(1e13L, 0.03L / unit<T>()))
+            {
+                DVec<T> y0(n), yn(n);
+                for (int i = 0; i < n; i++) y0[i] = Rnd<T>::g(r);
+                const DVec<T> xn = (Fn * y0.template cast<CLD>()).real().template cast<T>();
+                bool refused = false;
+                try { const typename PA::Type An = PA::make(A, UA, 1, r); const typename PB::Type Bn = PB::make(B, UB, 1, r); Op o(An, Bn); o.set_shift(sg); o.perform_op(xn.data(), yn.data()); }
+                catch (const std::invalid_argument&) { refused = true; ctx.count("near_eigenvalue/refused"); }
+                if (!refused)
+                {
+                    ctx.count("near_eigenvalue/solves");
+                    ctx.count("near_eigenvalue/cond_1e" + std::to_string((int) std::floor(std::log10((double) kn))));
+                    const VecCLD yl = yn.template cast<CLD>();
+                    const LD e = fnorm(VecCLD(Fn * yl - xn.template cast<CLD>())), al = C * n * unit<T>() * (fnorm(Fn) * fnorm(yl) + fnorm(xn.template cast<CLD>()));
+                    if (!all_finite(yn) || !within(ctx, "solve-residual/near-eigenvalue", e, al))
+                        ctx.violation("SymShiftInvert<" + name + ">/perform_op-not-backward-stable/shift-next-to-an-eigenvalue,rhs=(A-sigma*B)*y0",
+                                      vf::J().kv("instance", name).kv("scalar", Name<T>::s()).kv("n", n).kv("sigma", (LD) sg).kv("cond", kn).kv("observed", e).kv("allowed", al).str());
+                }
+            }
+            else ctx.count("near_eigenvalue/numerically-singular");
+        }
     }
     const MatCLD Fs = A.template cast<CLD>() - CLD((LD) sigma) * B.template cast<CLD>();
     Eigen::JacobiSVD<Eigen::MatrixXcd> svd(Fs.template cast<std::complex<double>>());
     const LD kap = (LD) (svd.singularValues()[0] / svd.singularValues()[n - 1]);
     if (!(kap < 1e6L)) { ctx.count("skipped_ill_conditioned"); return; }
-    using PA = Present<ASp, FA, SI>;
-    using PB = Present<BSp, FB, SI>;
-    using Op = Spectra::SymShiftInvert<T, typename std::conditional<ASp, Eigen::Sparse, Eigen::Dense>::type, typename std::conditional<BSp, Eigen::Sparse, Eigen::Dense>::type, UA, UB, FA, FB, SI, SI>;
     auto bad = [&](const char* what, LD obs, LD allow) {
         ctx.violation("SymShiftInvert<" + name + ">/" + what, vf::J().kv("instance", name).kv("scalar", Name<T>::s()).kv("n", n).kv("sigma", (LD) sigma).kv("check", what).kv("observed", obs).kv("allowed", allow).str());
     };
